@@ -867,89 +867,28 @@ static void cfg_init_defaults(cfg_t *cfg)
 	}
 }
 
-DLLIMPORT cfg_value_t *cfg_setopt(cfg_t *cfg, cfg_opt_t *opt, const char *value)
+/* Convert value according to the type of opt and store the result in val */
+static int cfg_setopt_value(cfg_t *cfg, cfg_opt_t *opt, const char *value, cfg_value_t *val)
 {
-	cfg_value_t *val = NULL;
 	int b;
 	const char *s;
 	double f;
 	long int i;
 	void *p;
 	char *endptr;
-
-	if (!cfg || !opt) {
-		errno = EINVAL;
-		return NULL;
-	}
-
-	if (opt->simple_value.ptr) {
-		if (opt->type == CFGT_SEC) {
-			errno = EINVAL;
-			return NULL;
-		}
-		val = (cfg_value_t *)opt->simple_value.ptr;
-	} else {
-		if (is_set(CFGF_RESET, opt->flags)) {
-			cfg_free_value(opt);
-			opt->flags &= ~CFGF_RESET;
-		}
-
-		if (opt->nvalues == 0 || is_set(CFGF_MULTI, opt->flags) || is_set(CFGF_LIST, opt->flags)) {
-			val = NULL;
-
-			if (opt->type == CFGT_SEC && is_set(CFGF_TITLE, opt->flags)) {
-				unsigned int i;
-
-				/* XXX: Check if there already is a section with the same title. */
-
-				/*
-				 * Check there are either no sections at
-				 * all, or a non-NULL section title.
-				 */
-				if (opt->nvalues != 0 && !value) {
-					errno = EINVAL;
-					return NULL;
-				}
-
-				for (i = 0; i < opt->nvalues && val == NULL; i++) {
-					cfg_t *sec = opt->values[i]->section;
-
-					if (is_set(CFGF_NOCASE, cfg->flags)) {
-						if (strcasecmp(value, sec->title) == 0)
-							val = opt->values[i];
-					} else {
-						if (strcmp(value, sec->title) == 0)
-							val = opt->values[i];
-					}
-				}
-
-				if (val && is_set(CFGF_NO_TITLE_DUPES, opt->flags)) {
-					cfg_error(cfg, _("found duplicate title '%s'"), value);
-					return NULL;
-				}
-			}
-
-			if (!val) {
-				val = cfg_addval(opt);
-				if (!val)
-					return NULL;
-			}
-		} else {
-			val = opt->values[0];
-		}
-	}
+	cfg_t *sec;
 
 	switch (opt->type) {
 	case CFGT_INT:
 		if (opt->parsecb) {
 			if ((*opt->parsecb) (cfg, opt, value, &i) != 0)
-				return NULL;
+				return CFG_FAIL;
 		} else {
 			int radix;
 			const char *int_str;
 			if (!value) {
 				errno = EINVAL;
-				return NULL;
+				return CFG_FAIL;
 			}
 			// Guess radix
 			radix = 0;
@@ -972,11 +911,11 @@ DLLIMPORT cfg_value_t *cfg_setopt(cfg_t *cfg, cfg_opt_t *opt, const char *value)
 			i = strtol(int_str, &endptr, radix);
 			if (*endptr != '\0') {
 				cfg_error(cfg, _("invalid integer value for option '%s'"), opt->name);
-				return NULL;
+				return CFG_FAIL;
 			}
 			if (errno == ERANGE) {
 				cfg_error(cfg, _("integer value for option '%s' is out of range"), opt->name);
-				return NULL;
+				return CFG_FAIL;
 			}
 		}
 		val->number = i;
@@ -985,20 +924,20 @@ DLLIMPORT cfg_value_t *cfg_setopt(cfg_t *cfg, cfg_opt_t *opt, const char *value)
 	case CFGT_FLOAT:
 		if (opt->parsecb) {
 			if ((*opt->parsecb) (cfg, opt, value, &f) != 0)
-				return NULL;
+				return CFG_FAIL;
 		} else {
 			if (!value) {
 				errno = EINVAL;
-				return NULL;
+				return CFG_FAIL;
 			}
 			f = strtod(value, &endptr);
 			if (*endptr != '\0') {
 				cfg_error(cfg, _("invalid floating point value for option '%s'"), opt->name);
-				return NULL;
+				return CFG_FAIL;
 			}
 			if (errno == ERANGE) {
 				cfg_error(cfg, _("floating point value for option '%s' is out of range"), opt->name);
-				return NULL;
+				return CFG_FAIL;
 			}
 		}
 		val->fpnumber = f;
@@ -1008,69 +947,74 @@ DLLIMPORT cfg_value_t *cfg_setopt(cfg_t *cfg, cfg_opt_t *opt, const char *value)
 		if (opt->parsecb) {
 			s = NULL;
 			if ((*opt->parsecb) (cfg, opt, value, &s) != 0)
-				return NULL;
+				return CFG_FAIL;
 		} else {
 			s = value;
 		}
 
 		if (!s) {
 			errno = EINVAL;
-			return NULL;
+			return CFG_FAIL;
 		}
 
+		s = strdup(s);
+		if (!s)
+			return CFG_FAIL;
+
 		free(val->string);
-		val->string = strdup(s);
-		if (!val->string)
-			return NULL;
+		val->string = (char *)s;
 		break;
 
 	case CFGT_SEC:
 		if (is_set(CFGF_MULTI, opt->flags) || val->section == NULL) {
+			/* Build the new section first, replace the old one last */
+			sec = calloc(1, sizeof(cfg_t));
+			if (!sec)
+				return CFG_FAIL;
+
+			sec->name = strdup(opt->name);
+			if (!sec->name) {
+				free(sec);
+				return CFG_FAIL;
+			}
+
+			sec->flags = cfg->flags;
+			if (is_set(CFGF_KEYSTRVAL, opt->flags))
+				sec->flags |= CFGF_KEYSTRVAL;
+
+			sec->filename = cfg->filename ? strdup(cfg->filename) : NULL;
+			if (cfg->filename && !sec->filename) {
+				free(sec->name);
+				free(sec);
+				return CFG_FAIL;
+			}
+
+			sec->line = cfg->line;
+			sec->errfunc = cfg->errfunc;
+			sec->title = value ? strdup(value) : NULL;
+			if (value && !sec->title) {
+				free(sec->filename);
+				free(sec->name);
+				free(sec);
+				return CFG_FAIL;
+			}
+
+			sec->opts = cfg_dupopt_array(opt->subopts);
+			if (!sec->opts) {
+				if (sec->title)
+					free(sec->title);
+				if (sec->filename)
+					free(sec->filename);
+				free(sec->name);
+				free(sec);
+				return CFG_FAIL;
+			}
+
 			if (val->section) {
 				val->section->path = NULL; /* Global search path */
 				cfg_free(val->section);
 			}
-			val->section = calloc(1, sizeof(cfg_t));
-			if (!val->section)
-				return NULL;
-
-			val->section->name = strdup(opt->name);
-			if (!val->section->name) {
-				free(val->section);
-				return NULL;
-			}
-
-			val->section->flags = cfg->flags;
-			if (is_set(CFGF_KEYSTRVAL, opt->flags))
-				val->section->flags |= CFGF_KEYSTRVAL;
-
-			val->section->filename = cfg->filename ? strdup(cfg->filename) : NULL;
-			if (cfg->filename && !val->section->filename) {
-				free(val->section->name);
-				free(val->section);
-				return NULL;
-			}
-
-			val->section->line = cfg->line;
-			val->section->errfunc = cfg->errfunc;
-			val->section->title = value ? strdup(value) : NULL;
-			if (value && !val->section->title) {
-				free(val->section->filename);
-				free(val->section->name);
-				free(val->section);
-				return NULL;
-			}
-
-			val->section->opts = cfg_dupopt_array(opt->subopts);
-			if (!val->section->opts) {
-				if (val->section->title)
-					free(val->section->title);
-				if (val->section->filename)
-					free(val->section->filename);
-				free(val->section->name);
-				free(val->section);
-				return NULL;
-			}
+			val->section = sec;
 		}
 		if (!is_set(CFGF_DEFINIT, opt->flags))
 			cfg_init_defaults(val->section);
@@ -1079,12 +1023,12 @@ DLLIMPORT cfg_value_t *cfg_setopt(cfg_t *cfg, cfg_opt_t *opt, const char *value)
 	case CFGT_BOOL:
 		if (opt->parsecb) {
 			if ((*opt->parsecb) (cfg, opt, value, &b) != 0)
-				return NULL;
+				return CFG_FAIL;
 		} else {
 			b = cfg_parse_boolean(value);
 			if (b == -1) {
 				cfg_error(cfg, _("invalid boolean value for option '%s'"), opt->name);
-				return NULL;
+				return CFG_FAIL;
 			}
 		}
 		val->boolean = (cfg_bool_t)b;
@@ -1093,11 +1037,11 @@ DLLIMPORT cfg_value_t *cfg_setopt(cfg_t *cfg, cfg_opt_t *opt, const char *value)
 	case CFGT_PTR:
 		if (!opt->parsecb) {
 			errno = EINVAL;
-			return NULL;
+			return CFG_FAIL;
 		}
 
 		if ((*opt->parsecb) (cfg, opt, value, &p) != 0)
-			return NULL;
+			return CFG_FAIL;
 		if (val->ptr && opt->freecb)
 			opt->freecb(val->ptr);
 		val->ptr = p;
@@ -1105,12 +1049,123 @@ DLLIMPORT cfg_value_t *cfg_setopt(cfg_t *cfg, cfg_opt_t *opt, const char *value)
 
 	default:
 		cfg_error(cfg, "internal error in cfg_setopt(%s, %s)", opt->name, (value) ? (value) : "NULL");
+		return CFG_FAIL;
+	}
+
+	return CFG_SUCCESS;
+}
+
+DLLIMPORT cfg_value_t *cfg_setopt(cfg_t *cfg, cfg_opt_t *opt, const char *value)
+{
+	cfg_value_t *val = NULL;
+	cfg_value_t **defvalues = NULL;
+	unsigned int defnvalues = 0;
+	cfg_flag_t flags;
+	int reset = 0;
+	int added = 0;
+
+	if (!cfg || !opt) {
+		errno = EINVAL;
 		return NULL;
+	}
+
+	flags = opt->flags;
+
+	if (opt->simple_value.ptr) {
+		if (opt->type == CFGT_SEC) {
+			errno = EINVAL;
+			return NULL;
+		}
+		val = (cfg_value_t *)opt->simple_value.ptr;
+	} else {
+		if (is_set(CFGF_RESET, opt->flags)) {
+			/*
+			 * The old (default) values are replaced, but not
+			 * until the new value is known to be good.
+			 */
+			reset = 1;
+			defvalues = opt->values;
+			defnvalues = opt->nvalues;
+			opt->values = NULL;
+			opt->nvalues = 0;
+		}
+
+		if (opt->nvalues == 0 || is_set(CFGF_MULTI, opt->flags) || is_set(CFGF_LIST, opt->flags)) {
+			val = NULL;
+
+			if (opt->type == CFGT_SEC && is_set(CFGF_TITLE, opt->flags)) {
+				unsigned int i;
+
+				/* XXX: Check if there already is a section with the same title. */
+
+				/*
+				 * Check there are either no sections at
+				 * all, or a non-NULL section title.
+				 */
+				if (opt->nvalues != 0 && !value) {
+					errno = EINVAL;
+					goto fail;
+				}
+
+				for (i = 0; i < opt->nvalues && val == NULL; i++) {
+					cfg_t *sec = opt->values[i]->section;
+
+					if (is_set(CFGF_NOCASE, cfg->flags)) {
+						if (strcasecmp(value, sec->title) == 0)
+							val = opt->values[i];
+					} else {
+						if (strcmp(value, sec->title) == 0)
+							val = opt->values[i];
+					}
+				}
+
+				if (val && is_set(CFGF_NO_TITLE_DUPES, opt->flags)) {
+					cfg_error(cfg, _("found duplicate title '%s'"), value);
+					goto fail;
+				}
+			}
+
+			if (!val) {
+				val = cfg_addval(opt);
+				if (!val)
+					goto fail;
+				added = 1;
+			}
+		} else {
+			val = opt->values[0];
+		}
+	}
+
+	if (cfg_setopt_value(cfg, opt, value, val) != CFG_SUCCESS)
+		goto fail;
+
+	if (reset) {
+		/* Now drop the old values, the annotation stays */
+		cfg_opt_t old = *opt;
+
+		old.values = defvalues;
+		old.nvalues = defnvalues;
+		old.comment = NULL;
+		cfg_free_value(&old);
+		opt->flags &= ~CFGF_RESET;
 	}
 
 	opt->flags |= CFGF_MODIFIED;
 
 	return val;
+
+fail:
+	/* Leave the option exactly as it was */
+	if (added)
+		free(opt->values[--opt->nvalues]);
+	if (reset) {
+		free(opt->values);
+		opt->values = defvalues;
+		opt->nvalues = defnvalues;
+	}
+	opt->flags = flags;
+
+	return NULL;
 }
 
 DLLIMPORT int cfg_opt_setmulti(cfg_t *cfg, cfg_opt_t *opt, unsigned int nvalues, char **values)
